@@ -70,20 +70,23 @@ func delFullAssign(w *ref.DelWitness, hash *big.Int) *prover.DeletionMbuCircuit 
 	}
 }
 
-func insGadgetCircuit(depth, batch int) *InsGadgetCircuit {
-	return &InsGadgetCircuit{Depth: depth, Batch: batch, Ids: vars(batch), Paths: vars2(batch, depth)}
-}
-
-func insGadgetAssign(w *ref.InsWitness) *InsGadgetCircuit {
-	return &InsGadgetCircuit{Start: w.Start, Pre: w.Pre, Post: w.Post, Ids: bigsToVars(w.Ids), Paths: bigs2ToVars(w.Paths), Depth: w.Depth, Batch: w.Batch}
-}
-
-func delGadgetCircuit(depth, batch int) *DelGadgetCircuit {
-	return &DelGadgetCircuit{Depth: depth, Batch: batch, Idx: vars(batch), Ids: vars(batch), Paths: vars2(batch, depth)}
-}
-
-func delGadgetAssign(w *ref.DelWitness) *DelGadgetCircuit {
-	return &DelGadgetCircuit{Idx: bigsToVars(w.Idx), Pre: w.Pre, Post: w.Post, Ids: bigsToVars(w.Ids), Paths: bigs2ToVars(w.Paths), Depth: w.Depth, Batch: w.Batch}
-}
-
 var pow32 = ref.Pow2(32)
+
+func vars(n int) []frontend.Variable { return make([]frontend.Variable, n) }
+
+func vars2(n, m int) [][]frontend.Variable {
+	o := make([][]frontend.Variable, n)
+	for i := range o {
+		o[i] = make([]frontend.Variable, m)
+	}
+	return o
+}
+
+// Gadget-level engines are optional: they live in files guarded by build tags
+// (g_merkle, ...) that the driver drops when a refactoring changed the
+// gadgets' Go API, so that the checks that only need the circuits' public
+// API keep running. nil = not built in.
+var (
+	e1InsGadget func(w *ref.InsWitness, field *big.Int) error
+	e1DelGadget func(w *ref.DelWitness, field *big.Int) error
+)
